@@ -769,4 +769,62 @@ def check_C20(cx):
                             "hook-gated callback sections, and ungated random timing scenarios; distinct_nontrivial = Idle.tla steps executed and validated")
 
 
-CHECKS = {"C20": check_C20, "C14": check_C14, "C17": check_C17, "C04": check_C04, "C08": check_C08, "C13": check_C13, "C19": check_C19, "C03": check_C03, "C07": check_C07}
+# ---------------------------------------------------------------- Http / C15
+def check_C15(cx):
+    cx.module = "http"
+    cx.build()
+    quick = cx.tier == "quick"
+    inv = ["C15_OnePerRequest", "C15_KeepAliveRule", "C15_NoEarlyClose"]
+    reqs = [{"ver": 11, "close": False, "body": "none"}, {"ver": 11, "close": False, "body": "cl"}, {"ver": 11, "close": False, "body": "chunked"},
+            {"ver": 11, "close": True, "body": "none"}, {"ver": 11, "close": True, "body": "cl"}, {"ver": 10, "close": False, "body": "none"},
+            {"ver": 10, "close": False, "body": "cl"}]
+    progs = [{"read": r, "resp": m, "flush": f} for r in ("all", "none") for m in ("cl", "chunked", "neither") for f in (False, True)]
+    consts = {"Reqs": Raw("{" + ", ".join(tla_rec(r) for r in reqs) + "}"), "Progs": Raw("{" + ", ".join(tla_rec(p) for p in progs) + "}"),
+              "MaxReqs": 2 if quick else 3, "FixDrain": TREE.get("FixHttpDrain", False), "FixFlush": TREE.get("FixHttpFlush", False)}
+    res = generic_mc(cx, "MChttp", "Http", consts, inv, spec="MCSpec",
+                     what="C15 over all sequences of <= %d requests from %d shapes x %d handler programs" % (consts["MaxReqs"], len(reqs), len(progs)), timeout=1500)
+    spec_violation = res["violated"]
+    # the same space on the real codec: all pairs (quick: a seeded sample of them), sizes around the 2048-byte writer buffer
+    import itertools
+    sizes = [0, 1, 100, 2047, 2048, 2049, 5000]
+    blens = [9, 300, 2049, 5000]
+    cases = []
+    k = 0
+    seqs = list(itertools.product(range(len(reqs)), repeat=2)) + ([] if quick else list(itertools.product(range(len(reqs)), repeat=3)))
+    for rs_ in seqs:
+        for ps_ in itertools.product(range(len(progs)), repeat=len(rs_)):
+            k += 1
+            # a chunked response to an HTTP/1.0 request is the handler's mistake, not the codec's
+            if any(reqs[ri]["ver"] == 10 and progs[pi]["resp"] == "chunked" for ri, pi in zip(rs_, ps_)):
+                continue
+            if cx.rnd.randrange(12 if quick else 40) != 0:
+                continue
+            rq = []
+            for ri in rs_:
+                r = dict(reqs[ri])
+                r["blen"] = 0 if r["body"] == "none" else blens[cx.rnd.randrange(len(blens))]
+                rq.append(r)
+            pg = []
+            for pi in ps_:
+                p = dict(progs[pi])
+                p["size"] = sizes[cx.rnd.randrange(len(sizes))]
+                pg.append(p)
+            cases.append({"id": "h%d" % k, "reqs": rq, "progs": pg, "frag": ("whole", "one", "rand", "perreq")[k % 4], "async": k % 3 == 0,
+                          "seed": cx.rnd.randrange(1, 1 << 30)})
+    rs = run_driver(cx.driver, "http", cases, cx.wd, tag="h", timeout=1500)
+    cx.absorb(rs, cases)
+    tconsts = dict(consts)
+    tconsts["MaxReqs"] = 3
+    for chunk in range(0, len(rs), 400):
+        validate(cx, "TH%d" % chunk, "TraceHttp", tconsts, rs[chunk:chunk + 400], [], {"op": "reset"})
+    cx.edges_walked = sum(r["actions"].get("requests", 0) for r in rs)
+    if rs:
+        cx.samples.append({"case": {k2: cases[0][k2] for k2 in ("reqs", "progs", "frag", "async")}, "recorded": rs[0]["events"][1:]})
+    if spec_violation and not cx.fails:
+        raise Inconclusive("SPEC-MISMATCH: TLC reports %s on Http.tla but no execution of the real codec fails the oracle" % spec_violation)
+    cx.assume.append("header values and body bytes are compared by the driver; net/http's response parser is the projection to the abstract record")
+    return finish(cx, rule="cases = (request sequence, handler programs, body/response sizes, fragmentation, channel mode) run through the real ServerCodec + Handler adapter; "
+                            "distinct_nontrivial = requests served and compared with Http.tla")
+
+
+CHECKS = {"C15": check_C15, "C20": check_C20, "C14": check_C14, "C17": check_C17, "C04": check_C04, "C08": check_C08, "C13": check_C13, "C19": check_C19, "C03": check_C03, "C07": check_C07}
